@@ -33,9 +33,10 @@ fn mk(kind, i) {
   if kind == 10 { return mksub(mkcls((i, 4))).new(); }
   return [i];
 }
+fn mkretfin(prev) { var f = Fiber.new(|p| { try { return p; } finally { mkclo(1); } }); f.call(prev); return f; }
 fn mkgen(prev, i) { return Fiber.new(|p| { var loc = [i, p == nil]; return || { return loc; }; }).call(prev); }
 """
-NKINDS = 12
+NKINDS = 13
 
 # per-iteration garbage statements ({i} loop counter expression, {s} small cyclic number)
 GARBAGE = {
@@ -121,7 +122,7 @@ def render(ir, n):
     e("fn spike(m, kind) { var big = []; var j = 0; while j < m { big.push(mk(kind, j)); j = j + 1; } return big.len(); }")
     e("fn run(n) {")
     e("  var acc = 0;")
-    e("  var ring = [%s];" % ", ".join(("mkgen(nil, %d)" % j) if kd == 11 else ("mk(%d, %d)" % (kd, j)) for j, kd in enumerate(ir["slots"])))
+    e("  var ring = [%s];" % ", ".join(("mkgen(nil, %d)" % j) if kd == 11 else ("mkretfin(nil)" if kd == 12 else ("mk(%d, %d)" % (kd, j))) for j, kd in enumerate(ir["slots"])))
     e("  var headf = Fiber.new(|| { Fiber.yield(0); return 0; }); headf.call(); var prevf = headf;")
     e("  var kinds = [%s];" % ", ".join(str(kd) for kd in ir["slots"]))
     for sp in ir["spikes"]:
@@ -130,7 +131,7 @@ def render(ir, n):
     e("  var i = 0;")
     e("  while i < n {")
     e("    var s = i %% %d;" % k)
-    e("    if kinds[s] == 11 { ring[s] = mkgen(ring[s], i); } else { ring[s] = mk(kinds[s], i); }")
+    e("    if kinds[s] == 11 { ring[s] = mkgen(ring[s], i); } else if kinds[s] == 12 { ring[s] = mkretfin(ring[s]); } else { ring[s] = mk(kinds[s], i); }")
     for sp in ir["spikes"]:
         if sp[0] == "middle":
             e("    if i == %d { acc = acc + spike(%d, %d); }" % (ir["n"] // 2, sp[1], sp[2]))
@@ -190,7 +191,7 @@ _base_fibers = {}
 def held_fibers(ir):
     """fiber objects the loop program can still reach at quiescence (ring slots of kind 7 hold a suspended fiber each,
     `headf` is always held; with the daisy-chain statement `prevf` and the predecessor its closure still names)"""
-    n = sum(1 for kd in ir["slots"] if kd == 7) + 1
+    n = sum(1 for kd in ir["slots"] if kd in (7, 12)) + 1      # kind 7: a suspended fiber; kind 12: a finished one
     if any(g == "fiber_daisy_chain" for g, _ in ir["body"]):
         n += 2        # prevf (suspended) and, through the variable its body closed over, its finished predecessor
     return n
@@ -200,7 +201,7 @@ class C16:
     ID = "C16"
     LEVEL = "exploration"
     TIMEOUT = 40.0
-    RULE = ("case = generated loop program with a bounded live set (ring of 1-60 slots of 12 object kinds replaced for ever; optional "
+    RULE = ("case = generated loop program with a bounded live set (ring of 1-60 slots of 13 object kinds replaced for ever; optional "
             "transient spikes of 500-6000 live objects at the start or in the middle) and a random subset of 38 per-iteration garbage "
             "statements (every object kind, iterators, fibers finished/abandoned/resumed, classes and subclasses declared in the loop, "
             "fresh ranges, failing natives and operations, thrown objects, injected host failures at top level / in a callee / in a "
